@@ -61,6 +61,7 @@ func C10(c *core.Ctx) {
 	c.RuleText = "instances: LpPacket fields read on receive vs written on send, optional headers with an overhead constant, the additive terms of computeHeaderOverhead, transport implementations (discovered through the type checker), reassembly call arguments. Non-trivial = has a field set, path or constant sum to decide."
 	p := c.P
 	defer c10FrameBuffer(c)
+	defer c10ReassemblyKey(c)
 	// fields of the link service by role, not by name: the reassembly store is the map
 	// field whose values are fragment lists ([][]byte); the cached overhead is the int
 	// field that the overhead function assigns
@@ -1420,4 +1421,74 @@ func c10FrameBuffer(c *core.Ctx) {
 		}
 		c.Decide(len(bad) == 0 && nStores > 0, "R10.13", "copied-frame-buffer-has-constant-full-size:"+f, at, "the buffer the frame is copied into is allocated with a constant size ≥ the largest frame limit of any transport", "the outgoing frame is assembled by copy() into NDNLPLinkService."+f+", which is allocated with a size that is not a constant ≥ the largest frame limit of a transport (the internal face: "+fmt.Sprint(maxPkt)+" plus link-layer headers) ("+strings.Join(bad, ", ")+"): copy stops at the end of the buffer, so a frame longer than the buffer (the MTU was raised since; a near-maximum packet on the internal face, which does not fragment) is truncated and sent")
 	}
+}
+
+// c10ReassemblyKey — R10.18 "interleaved with the fragments of other packets": NDNLPv2
+// sequence numbers are per sender. A link service that reassembles what a multi-access
+// transport receives (the UDP multicast group socket: every neighbour on the link) keeps the
+// messages of different senders apart — the key of its partial-message store names the
+// sender, not the sequence alone. With a bare number as key, two neighbours whose counters
+// are close (both start at 0) have their fragments assembled into one packet that neither
+// sent. Decided on the shape: the store's key type, and whether a transport without a single
+// remote peer hands frames to this link service.
+func c10ReassemblyKey(c *core.Ctx) {
+	p := c.P
+	ls := p.Named("fw/face", "NDNLPLinkService")
+	if ls == nil {
+		c.Und("R10.18", "anchor:NDNLPLinkService", "-", "type not found")
+		return
+	}
+	st, _ := ls.Underlying().(*types.Struct)
+	var key types.Type
+	field := ""
+	for i := 0; st != nil && i < st.NumFields(); i++ {
+		if m, ok := st.Field(i).Type().Underlying().(*types.Map); ok {
+			isFrags := func(t types.Type) bool {
+				s1, ok := t.Underlying().(*types.Slice)
+				if !ok {
+					return false
+				}
+				s2, ok := s1.Elem().Underlying().(*types.Slice)
+				if !ok {
+					return false
+				}
+				b, ok := s2.Elem().Underlying().(*types.Basic)
+				return ok && b.Kind() == types.Uint8
+			}
+			if isFrags(m.Elem()) {
+				key, field = m.Key(), st.Field(i).Name()
+			} else if m2, ok := m.Elem().Underlying().(*types.Map); ok && isFrags(m2.Elem()) {
+				key, field = m.Key(), st.Field(i).Name() // per-sender map of messages
+			}
+		}
+	}
+	if key == nil {
+		c.Und("R10.18", "anchor:NDNLPLinkService partial-message store", "-", "no map field holding fragment lists found")
+		return
+	}
+	// a multi-access transport: its receive routine hands frames to the link service and it
+	// joins a group (it has no single remote peer)
+	multi := ""
+	for _, fn := range p.FuncsIn(core.ModPath + "/fw/face") {
+		core.Instrs(fn, func(in ssa.Instruction) {
+			cl, ok := in.(*ssa.Call)
+			if !ok {
+				return
+			}
+			if cal := cl.Call.StaticCallee(); cal != nil && cal.Pkg != nil && cal.Pkg.Pkg.Path() == "net" && strings.HasPrefix(cal.Name(), "ListenMulticast") {
+				if root := core.RootOf(fn); root != nil && root.Signature.Recv() != nil {
+					multi = types.TypeString(core.Deref(root.Signature.Recv().Type()), func(*types.Package) string { return "" })
+				}
+			}
+		})
+	}
+	if multi == "" {
+		c.Ok("R10.18", "reassembly-key-identifies-the-sender:"+field, "-", "no transport of fw/face listens on a multicast group: every link service has one peer")
+		return
+	}
+	_, bare := key.Underlying().(*types.Basic)
+	if b, ok := key.Underlying().(*types.Basic); ok && b.Info()&types.IsString != 0 {
+		bare = false
+	}
+	c.Decide(!bare, "R10.18", "reassembly-key-identifies-the-sender:"+field, p.Pos(ls.Obj().Pos()), "the key of the partial-message store is not a bare number ("+key.String()+")", "the partial-message store of the link service is keyed by a bare number ("+key.String()+": the sequence number of the first fragment) while "+multi+" receives the frames of every neighbour on a multicast group through one link service: sequence numbers are per sender, so the fragments of two neighbours whose counters are close are assembled into one packet that neither sent, and neither original is delivered")
 }
